@@ -147,7 +147,13 @@ package netconf
 //@   at return assert #the-session-id-is-the-decimal-number-of-the-hello result == nil && len(sessionIDMatch) == 2 ==> atoiOK(sessionIDMatch[1]) && (atoiVal(sessionIDMatch[1]) >= 0 ==> d.sessionID == atoiVal(sessionIDMatch[1]))
 //@   at return assert #an-unparsable-session-id-is-a-netconf-error err == nil && reMatch(ncPatterns.hello, b) && len(sessionIDMatch) == 2 && !atoiOK(sessionIDMatch[1]) ==> result != nil && isErr(result, util.ErrNetconfError)
 //@   at return assert #a-hello-without-session-id-is-fine err == nil && reMatch(ncPatterns.hello, b) && len(sessionIDMatch) != 2 ==> result == nil && d.sessionID == old(d.sessionID)
-//@ func (*Driver).Open [C08 C09]
+// chanOpenOK: ghost - the channel's own Open succeeded (from then on a failing netconf Open has to close the channel itself;
+// before that Channel.Open has already cleaned up after itself, and closing twice panics)
+//@ ghost chanOpenOK bool local
+//@ func (*Driver).Open$1 [C06 C07]
+//@   requires #the-channel-is-closed-here-only-after-its-own-open-succeeded reterr != nil ==> chanOpenOK
+//@ func (*Driver).Open [C08 C09 C06 C07]
+//@   after call Open#1 set chanOpenOK = (result == nil)
 //@   requires RI(d.Channel.Q) && d.Channel.PromptSearchDepth >= 0 && d.Channel.Errs != d.Channel.Q.depthChan && d.errs != d.Channel.Q.depthChan && d.done != d.Channel.Q.depthChan
 //@   requires d.messages != nil && d.subscriptions != nil
 //@   ensures #reader-started-only-on-success-with-a-settled-version result == nil ==> (d.SelectedVersion == "1.0" || d.SelectedVersion == "1.1")
